@@ -109,6 +109,46 @@ def addrEnv : Env :=
 theorem const_value_fails_optional_enum_member :
     idlEnvOf addrEnv 2 0 [67] = some (.strct [.int 0]) ∧ goEnvOf addrEnv 2 0 [67] = none := ⟨rfl, rfl⟩
 
+/-! ### const_reject_iff -/
+
+/-- **const_reject_iff.**  thriftgo accepts an initializer exactly when `accepts` holds: for scalars the kinds
+of C04's catalogue (`accScalar`), for struct-likes an identifier that resolves or a map literal whose keys are
+literals naming fields and whose values are accepted at the fields' types (in the scope of the struct's file),
+for containers elements accepted at the element type -- and, as the code has it, ANY initializer of another
+kind for a container (it becomes `T{}`). -/
+theorem const_reject_iff (E : Env) (root g : Nat) (t : ATy) (v : CV) :
+    (∃ e, resolveConst E root g t v = .ok e) ↔ accepts E root g t v = true := by
+  rw [← rc_isOk E root v g t]
+  cases resolveConst E root g t v <;> simp [resOk]
+
+/-- the syntactic kinds each category takes (necessary for acceptance; identifiers must also resolve) -/
+def kindAllowed : Cat → CV → Bool
+  | .bool, .int _ | .bool, .dbl _ _ | .bool, .ident _ _ => true
+  | .i8, .int _ | .i8, .ident _ _ | .i16, .int _ | .i16, .ident _ _ => true
+  | .i32, .int _ | .i32, .ident _ _ | .i64, .int _ | .i64, .ident _ _ => true
+  | .dbl, .int _ | .dbl, .dbl _ _ | .dbl, .ident _ _ => true
+  | .str, .lit _ | .str, .ident _ _ | .bin, .lit _ | .bin, .ident _ _ => true
+  | .enum, .int _ | .enum, .ident _ _ => true
+  | .strct, .ident _ _ | .strct, .map _ => true
+  | .list, _ | .set, _ | .map, _ => true
+  | _, _ => false
+
+/-- a kind mismatch on a scalar or struct-like type is never accepted -/
+theorem kind_mismatch_rejected (E : Env) (root g : Nat) (t : ATy) (v : CV) (h : kindAllowed t.cat v = false) :
+    ∀ e, resolveConst E root g t v ≠ .ok e := by
+  intro e he
+  have hacc := (const_reject_iff E root g t v).mp ⟨e, he⟩
+  rw [accepts.eq_def] at hacc
+  cases hc : t.cat <;> cases v <;> simp_all [kindAllowed, accScalar]
+
+/-- the tolerance: a number or a literal given for a container is accepted and becomes the empty container -/
+theorem container_tolerance (E : Env) (root g : Nat) (t : ATy) (v : CV) (ty : GoTy)
+    (hc : t.cat = .list ∨ t.cat = .set ∨ t.cat = .map) (htn : typeName E root g t = .ok ty)
+    (hv : (match v with | .int _ | .dbl _ _ | .lit _ => true | _ => false) = true) :
+    resolveConst E root g t v = .ok (if t.cat = .map then .mapLit ty [] else .sliceLit ty []) := by
+  rw [resolveConst.eq_def]
+  rcases hc with hc | hc | hc <;> cases v <;> simp_all
+
 /-! ### string_literal_emission -/
 
 /-- **string_literal_emission.**  For a string-typed initializer that is a literal, the emitted Go text is
